@@ -165,7 +165,9 @@ func (conn *wsConn) OnPacket(fn func(*protocol.Packet, error)) {
 		conn.packetCh = make(chan *protocol.Packet, conn.dopts.ReadQueueSize)
 
 		go func() {
-			defer close(conn.packetCh)
+			// packetCh and writeCh are never closed: the reader and callers of
+			// Write may still be sending on them when the conn is closed (a
+			// send on a closed channel panics); everyone watches closeCh
 
 			for {
 				verifhook.Point("disp.loop")
@@ -203,7 +205,6 @@ func (conn *wsConn) Close(err error) {
 	conn.closeOnce.Do(func() {
 		conn.logger.Errorf("close conn, err: %v", err)
 		close(conn.closeCh)
-		close(conn.writeCh)
 
 		_ = conn.conn.Close()
 
@@ -312,8 +313,11 @@ func (conn *wsConn) addPacket(p *protocol.Packet) {
 
 func (conn *wsConn) writing() {
 	for {
-		b, ok := <-conn.writeCh
-		if !ok {
+		var b []byte
+
+		select {
+		case b = <-conn.writeCh:
+		case <-conn.closeCh:
 			return
 		}
 
